@@ -42,6 +42,7 @@ def shards(tier, seed):
         out.append({"id": "facade-d%d" % detect, "facade": True, "detect": detect, "L": 4 if tier == "quick" else 6})
     out.append({"id": "iscsi", "iscsi": True})
     out.append({"id": "two-users", "two_users": True})
+    out.append({"id": "forked", "forked": True})
     return out
 
 
@@ -433,7 +434,129 @@ def run_two_users(ctx):
                 devnode.remove_all(node)
 
 
+def run_forked(ctx):
+    """a device opened in one process and used and released in a forked child (pre-forking servers, multiprocessing with the fork
+    start method): in the child, too, close() / leaving a with block releases every handle the child holds exactly once; the
+    parent's handle stays usable and is released by the parent"""
+    import json
+    import sys
+
+    w = World()  # installs the stand-ins before anything of pyscsi is imported
+    import pyscsi.pyscsi.scsi_enum_command as E
+    from pyscsi.pyscsi.scsi import SCSI
+    from pyscsi.pyscsi.scsi_cdb_testunitready import TestUnitReady
+
+    from vmon.sim import devnode
+
+    isc = sys.modules["iscsi"]
+    isc.handler = None
+    for transport in ("sgio", "iscsi"):
+        for detect in ((True, False) if transport == "sgio" else (True,)):
+            for hist in ("", "E", "RE", "ERE", "EE"):
+                if transport == "iscsi" and "R" in hist:
+                    continue
+                for term in ("C", "W", "Y", "S"):
+                    del w.handles[:]
+                    w.sg.log = []
+                    w.sg.pre_hooks = []
+                    isc.contexts[:] = []
+                    if transport == "sgio":
+                        node = devnode.new_node()
+                        dev = w.sd.SCSIDevice(node, True, detect)
+                    else:
+                        from vmon.sim import install
+
+                        node = None
+                        dev = install.iscsi_device()
+                    dev.opcodes = E.spc
+                    wit = {"transport": transport, "detect": detect, "history_in_child": hist, "released_by": term}
+                    ctx.case(("forked", transport, detect, hist, term), True, sample=wit if ctx.want_sample() else None)
+                    ctx.count("forked_histories")
+                    rfd, wfd = os.pipe()
+                    pid = os.fork()
+                    if pid == 0:
+                        out = {"error": None}
+                        try:
+                            os.close(rfd)
+                            for ev in hist:
+                                if ev == "R":
+                                    devnode.replug(node)
+                                else:
+                                    dev.execute(TestUnitReady(E.spc.TEST_UNIT_READY))
+                            try:
+                                if term == "C":
+                                    dev.close()
+                                elif term == "W":
+                                    with dev:
+                                        pass
+                                elif term == "Y":
+                                    try:
+                                        with dev:
+                                            raise RuntimeError("x")
+                                    except RuntimeError:
+                                        pass
+                                else:
+                                    s = SCSI(None)
+                                    s.device = dev
+                                    with s:
+                                        pass
+                            except Exception as e:  # noqa: BLE001
+                                out["error"] = "release raised %s: %s" % (type(e).__name__, e)
+                            if transport == "sgio":
+                                out["handles_closed"] = [bool(h.closed) for h in w.handles]
+                                out["real_closes"] = [h.real_closes for h in w.handles]
+                                out["fds"] = len(devnode.open_fds_on(node))
+                            else:
+                                out["disconnects"] = [c.disconnects for c in isc.contexts]
+                                out["connected"] = [bool(c.connected) for c in isc.contexts]
+                        except BaseException as e:  # noqa: BLE001
+                            out["error"] = "%s: %s" % (type(e).__name__, e)
+                        try:
+                            os.write(wfd, json.dumps(out).encode())
+                        finally:
+                            os._exit(0)
+                    os.close(wfd)
+                    data = b""
+                    while True:
+                        chunk = os.read(rfd, 65536)
+                        if not chunk:
+                            break
+                        data += chunk
+                    os.close(rfd)
+                    os.waitpid(pid, 0)
+                    try:
+                        out = json.loads(data.decode())
+                    except ValueError:
+                        ctx.inconclusive_because("forked child gave no report")
+                        return
+                    if out.get("error"):
+                        ctx.fail("C15:forked.child_error", "in the forked child: %s" % out["error"], wit)
+                    elif transport == "sgio" and (out["fds"] != 0 or not all(out["handles_closed"]) or any(n != 1 for n in out["real_closes"])):
+                        ctx.fail("C15:forked.handle_not_released_once_in_child", "after the release in the forked child: %d descriptors on the node, handles closed %r, closes per handle %r"
+                                 % (out["fds"], out["handles_closed"], out["real_closes"]), wit)
+                    elif transport == "iscsi" and (out["disconnects"] != [1] or any(out["connected"])):
+                        ctx.fail("C15:forked.session_not_released_once_in_child", "after the release in the forked child: disconnects %r" % out["disconnects"], wit)
+                    # the parent's own handle is untouched by what the child did, works, and is released by the parent
+                    try:
+                        if transport == "sgio" and "R" in hist:
+                            pass  # the child replaced the node: the parent follows the replug or reports it, as in the sequences above
+                        else:
+                            dev.execute(TestUnitReady(E.spc.TEST_UNIT_READY))
+                        dev.close()
+                    except Exception as e:  # noqa: BLE001
+                        ctx.fail("C15:forked.parent_device_unusable.%s" % type(e).__name__, "after a forked child used and released its copy, the parent's device raised %s" % e, wit, exc=e)
+                    if transport == "sgio":
+                        n = len(devnode.open_fds_on(node))
+                        if n != 0:
+                            ctx.fail("C15:forked.parent_descriptor_leak", "%d descriptors on the node after the parent's close" % n, wit)
+                        devnode.remove_all(node)
+                    elif [c.disconnects for c in isc.contexts] != [1]:
+                        ctx.fail("C15:forked.parent_session_not_released_once", "parent's session disconnects %r" % [c.disconnects for c in isc.contexts], wit)
+
+
 def run(shard, ctx):
+    if shard.get("forked"):
+        return run_forked(ctx)
     if shard.get("iscsi"):
         return run_iscsi(ctx)
     if shard.get("two_users"):
@@ -489,9 +612,17 @@ def run_iscsi(ctx):
 
     isc = sys.modules["iscsi"]
     st = {"status": 0}
-    isc.handler = lambda ev: (st["status"], b"\x70\x00\x06" + bytes(15) if st["status"] == 2 else None)
+    def handler(ev):
+        if st.get("raise") is not None:
+            exc, st["raise"] = st["raise"], None
+            raise exc
+        return st["status"], b"\x70\x00\x06" + bytes(15) if st["status"] == 2 else None
+
+    isc.handler = handler
     for n in range(0, 4):
-        for tup in itertools.product("EFT", repeat=n):
+        # E GOOD, F CHECK CONDITION, T the binding's pseudo status for a failed task, X the binding itself raises (connection reset,
+        # timeout, broken pipe: an OSError out of command())
+        for tup in itertools.product("EFTX", repeat=n):
             for term in ("C", "W", "Y", "S"):
                 isc.contexts[:] = []
                 dev = install.iscsi_device()
@@ -499,7 +630,11 @@ def run_iscsi(ctx):
                 wit = {"sequence": "".join(tup) + term, "transport": "iscsi"}
                 for evn in tup:
                     # T: the binding's pseudo status for a failed / timed-out task
-                    st["status"] = 0 if evn == "E" else 2 if evn == "F" else (0x0F000001, 0x0F000002)[len(tup) % 2]
+                    st["status"] = 0 if evn in "EX" else 2 if evn == "F" else (0x0F000001, 0x0F000002)[len(tup) % 2]
+                    if evn == "X":
+                        st["raise"] = (ConnectionResetError(104, "injected: connection reset by peer"), TimeoutError("injected: timed out"), BrokenPipeError(32, "injected"),
+                                       OSError(5, "injected: I/O error"))[(len(tup) + tup.index("X")) % 4]
+                        ctx.count("iscsi_binding_raised")
                     try:
                         dev.execute(TestUnitReady(E.spc.TEST_UNIT_READY))
                     except Exception:  # noqa: BLE001
@@ -525,8 +660,10 @@ def run_iscsi(ctx):
                     ctx.fail("C15:iscsi.close_raises.%s" % type(e).__name__, "close raised %r" % e, wit, exc=e)
                 ctx.case(("iscsi", tup, term), False, sample=wit if ctx.want_sample() else None)
                 ctx.count("iscsi_sequences")
-                if len(ctxs) != 1 or ctxs[0].disconnects != 1 or ctxs[0].connected:
-                    ctx.fail("C15:iscsi.session_not_released_once", "contexts=%d disconnects=%r" % (len(ctxs), [c.disconnects for c in ctxs]), wit)
+                st["raise"] = None
+                allc = list(isc.contexts)  # every session the device ever connected, not only its first
+                if len(ctxs) != 1 or any(c.disconnects != 1 or c.connected for c in allc):
+                    ctx.fail("C15:iscsi.session_not_released_once", "sessions connected by the device: %d, disconnects %r, still connected %r" % (len(allc), [c.disconnects for c in allc], [c.connected for c in allc]), wit)
                 # the same object connected again with its public open(url) and released again: the new session is released
                 # exactly once as well, and the earlier one stays as it was
                 for again in range(2):
@@ -570,12 +707,17 @@ def finalize(merged, tier):
     c = merged["counters"]
     if c.get("sequences", 0) == 0 or c.get("events", 0) == 0:
         merged["inconclusive"].append("no event sequence executed")
+    for k, least in (("forked_histories", 50), ("iscsi_binding_raised", 100), ("iscsi_reopen_histories", 100)):
+        if c.get(k, 0) < least:
+            merged["inconclusive"].append("monitor hardly reached: %s=%d" % (k, c.get(k, 0)))
     return {"exhaustive": True, "exhaustive_dimension": "all event sequences up to length %s over the 8-event alphabet x 5 endings x 8 configurations"
             % ",".join(sorted(merged["sets"].get("sequence_max_length", ["?"])))}
 
 
 def replay(rec, ctx):
     w = rec["witness"]
+    if "history_in_child" in w:
+        return run_forked(ctx)
     if w.get("transport") == "iscsi":
         return run_iscsi(ctx)
     seq = w["sequence"]
